@@ -122,7 +122,7 @@ def main():
     run = Run("C20", tier)
     run.rule = ("file sets {2 .lp}, {3 .lp}, {2 .lp, .ug}, {.spec, 1-2 .lp, .ug}, {... + .po}, {... + notes.txt, README.md}, {mixed-case names B.lp, a.lp, Z.ug, t.ug}: ALL permutations of the argument list x each file given directly or via a "
                 "directory (all groupings of up to two directories) for strong and external equivalence with --no-proof-search --save-problems; oracle: the emitted problem files equal those of the canonical "
-                "call whose roles come from the reference rule (extension buckets; .lp in argument order, file-name order inside a directory; where several .spec/.ug/.po files are given the property does not say which one is used, so any of them is accepted); swapping the two programs of a strong task, and of an external task over two programs with distinct private predicates, maps forward onto "
+                "call whose roles come from the reference rule (extension buckets; .lp in argument order, file-name order inside a directory; where several .spec/.ug/.po files are given the property does not say which one is used, so any of them is accepted); swapping the two programs of a strong task, and of an external task over two programs with distinct private predicates (without a proof outline, with an undirected lemma, and with a lemma given for both directions; the outline problems of the two directions are compared separately as well), maps forward onto "
                 "backward with axioms and conjectures exchanged; non-trivial = distinct emitted problem sets")
     base = scratch("c20_")
     try:
@@ -236,7 +236,12 @@ def main():
         # one of the two programs never mentions the output predicate q/1
         ext_pairs += [("out(X) :- in(X).\n", "out(X) :- in(X). q(X) :- in(X), X > 1.\n", UG2),
                       ("out(X) :- in(X). q(1).\n", "out(X) :- in(X), not not in(X).\n", UG2)]
+        # ... and with a proof outline whose lemmas carry no direction (or both): the outline problems of a
+        # direction take their premises from that direction's side, so they are exchanged as well
+        PO_VARIANTS = [None, "lemma: forall X (out(X) -> in(X)).\n",
+                       "lemma(forward): forall X (out(X) -> in(X)).\nlemma(backward): forall X (out(X) -> in(X)).\n"]
         for pair in ext_pairs:
+          for po in PO_VARIANTS:
             pa, pb = pair[0], pair[1]
             for flags in [[], ["--decomposition", "independent"], ["--no-simplify"], ["--no-eq-break"]]:
                 d = scratch("c20x_")
@@ -246,8 +251,11 @@ def main():
                         open(os.path.join(d, "t.ug"), "w").write(pair[2])
                     else:
                         shutil.copy(os.path.join(flat, "t.ug"), os.path.join(d, "t.ug"))
-                    _, p1, _ = problems_of(anthem, ["--equivalence", "external"] + flags + ["a.lp", "b.lp", "t.ug"], d)
-                    _, p2, _ = problems_of(anthem, ["--equivalence", "external"] + flags + ["b.lp", "a.lp", "t.ug"], d)
+                    extra = []
+                    if po is not None:
+                        open(os.path.join(d, "o.po"), "w").write(po); extra = ["o.po"]
+                    _, p1, _ = problems_of(anthem, ["--equivalence", "external"] + flags + ["a.lp", "b.lp", "t.ug"] + extra, d)
+                    _, p2, _ = problems_of(anthem, ["--equivalence", "external"] + flags + ["b.lp", "a.lp", "t.ug"] + extra, d)
                 finally:
                     shutil.rmtree(d, ignore_errors=True)
                 run.states += 1; run.transitions += len(p1) + len(p2)
@@ -258,13 +266,19 @@ def main():
                             for role, body in strip_names(text):
                                 (ax if role == "axiom" else cj).add(body)
                     return ax - cj, cj
-                f1, b1 = fam(p1, "forward"), fam(p1, "backward")
-                f2, b2 = fam(p2, "forward"), fam(p2, "backward")
-                run.observe(("swap-external", pa, pb, tuple(flags), len(p1)))
-                if f1 != b2 or b1 != f2 or not p1:
-                    run.violation("swap_does_not_exchange_directions|external", {"programs": [pa, pb], "flags": flags,
-                                  "forward_ab_axioms_only_there": sorted(f1[0] - b2[0])[:3], "backward_ba_axioms_only_there": sorted(b2[0] - f1[0])[:3],
-                                  "forward_ab_conjectures_only_there": sorted(f1[1] - b2[1])[:3], "backward_ba_conjectures_only_there": sorted(b2[1] - f1[1])[:3]})
+                run.observe(("swap-external", pa, pb, po, tuple(flags), len(p1)))
+                families = [("forward", "backward")]
+                if po is not None:
+                    families.append(("forward_outline", "backward_outline"))
+                    if not any(n.startswith("forward_outline") for n in p1) or not any(n.startswith("backward_outline") for n in p1):
+                        run.violation("outline_problems_missing|external", {"programs": [pa, pb], "flags": flags, "outline": po, "problems": sorted(p1)})
+                for fw, bw in families:
+                    f1, b1 = fam(p1, fw), fam(p1, bw)
+                    f2, b2 = fam(p2, fw), fam(p2, bw)
+                    if f1 != b2 or b1 != f2 or not p1:
+                        run.violation("swap_does_not_exchange_directions|external" + ("|outline" if fw != "forward" else ""), {"programs": [pa, pb], "flags": flags, "outline": po,
+                                      "forward_ab_axioms_only_there": sorted(f1[0] - b2[0])[:3], "backward_ba_axioms_only_there": sorted(b2[0] - f1[0])[:3],
+                                      "forward_ab_conjectures_only_there": sorted(f1[1] - b2[1])[:3], "backward_ba_conjectures_only_there": sorted(b2[1] - f1[1])[:3]})
         run.sample({"equivalence": "external", "arguments": ["d1", "t.ug"], "directories": {"d1": ["m.lp", "k.lp"]}, "meaning": "m.lp and k.lp given through directory d1: k.lp is the specification (file-name order), m.lp the program"})
     finally:
         shutil.rmtree(base, ignore_errors=True)
